@@ -54,6 +54,9 @@ pub struct IoStats {
     pub writes: Cell<u32>,
     pub write_pending: Cell<u32>,
     pub eof: Cell<u32>,
+    /// back-pressure: while set, every other poll_write answers Pending and the others accept at most 1000 bytes
+    pub throttle: Cell<bool>,
+    pub tick: Cell<u32>,
 }
 impl IoStats {
     pub fn reset(&self) {
@@ -105,7 +108,19 @@ impl AsyncRead for Mem {
 }
 impl AsyncWrite for Mem {
     fn poll_write(mut self: Pin<&mut Self>, cx: &mut Context<'_>, buf: &[u8]) -> Poll<io::Result<usize>> {
-        let r = Pin::new(&mut self.io).poll_write(cx, buf);
+        let r = if self.stats.throttle.get() {
+            let t = self.stats.tick.get() + 1;
+            self.stats.tick.set(t);
+            if t % 2 == 1 {
+                cx.waker().wake_by_ref();
+                Poll::Pending
+            } else {
+                let n = buf.len().min(1000);
+                Pin::new(&mut self.io).poll_write(cx, &buf[..n])
+            }
+        } else {
+            Pin::new(&mut self.io).poll_write(cx, buf)
+        };
         let st = &self.stats;
         st.writes.set(st.writes.get() + 1);
         if r.is_pending() {
